@@ -699,7 +699,9 @@ class IndividualParameters:
             Individual parameters object load from the file
         """
         # `converters` (unlike `dtype`) prevents identifiers such as "NA" or "null" to be parsed as missing values
-        df = pd.read_csv(path, converters={"ID": str}).set_index("ID")
+        df = pd.read_csv(
+            path, converters={"ID": str}, float_precision="round_trip"
+        ).set_index("ID")
         ip = cls.from_dataframe(df)
 
         return ip
